@@ -108,22 +108,22 @@ def assertionWithPredicate (e p : Env) : Res Env :=
   | [a] => .ok a
   | _ => .err "AmbiguousPredicate"
 
-/-- `object_for_predicate`: `assertion_with_predicate(p)?.as_object().unwrap()` -/
+/-- `object_for_predicate`: `assertion_with_predicate(p)?.subject().as_object().unwrap()` -/
 def objectForPredicate (e p : Env) : Res Env :=
   match assertionWithPredicate e p with
   | .ok a =>
-    match asObject a with
+    match asObject a.subject with
     | some o => .ok o
     | none => .panic "queries.rs:object_for_predicate:as_object.unwrap"
   | .err x => .err x
   | .panic x => .panic x
 
-/-- `objects_for_predicate`: `.map(|a| a.as_object().unwrap())` -/
+/-- `objects_for_predicate`: `.map(|a| a.subject().as_object().unwrap())` -/
 def objectsForPredicate (e p : Env) : Res (List Env) :=
   (assertionsWithPredicate e p).foldr (fun a acc =>
     match acc with
     | .ok os =>
-      match asObject a with
+      match asObject a.subject with
       | some o => .ok (o :: os)
       | none => .panic "queries.rs:objects_for_predicate:as_object.unwrap"
     | r => r) (.ok [])
